@@ -21,7 +21,7 @@ fn c14_layout() -> (u64, u64, u64) {
     let n5 = (mon::c14::space_size(5, mon::c14::AB5_MAXLEN) + STR_CHUNK - 1) / STR_CHUNK;
     let n3 = (mon::c14::space_size(3, mon::c14::AB3_MAXLEN) + STR_CHUNK - 1) / STR_CHUNK;
     // ADTS: 2 protection modes x 4 buffer deltas x 16 chunks of 512 frame lengths
-    (n5, n3, 2 * 4 * 16)
+    (n5, n3, 2 * 4 * 16 + 2 * 16)
 }
 
 pub fn c14_enumeration_cases() -> u64 {
@@ -44,7 +44,7 @@ fn hostile_meta(r: &mut Rng, cfg: &mut Cfg) {
         cfg.ctime = Some(*r.pick(&[0u64, 1, 86_399, 86_400, 951_782_400, 4_102_444_800, 253_402_300_799, 253_402_300_800, 1 << 40, 1 << 53, u64::MAX / 2, u64::MAX - 1, u64::MAX]));
     }
     if r.chance(2, 3) {
-        cfg.lang = Some(match r.below(8) {
+        cfg.lang = Some(match r.below(14) {
             0 => String::new(),
             1 => "e".into(),
             2 => "en".into(),
@@ -52,7 +52,8 @@ fn hostile_meta(r: &mut Rng, cfg: &mut Cfg) {
             4 => "engl".into(),
             5 => "日本語".into(),
             6 => "\u{0}\u{0}\u{0}".into(),
-            _ => "~{}".into(),
+            7 => "~{}".into(),
+            _ => crate::gen::hist::hostile_lang(r),
         });
     }
 }
@@ -64,7 +65,7 @@ pub fn gen_case2(prop: &str, tier: Tier, _seed: u64, idx: u64, r: &mut Rng) -> O
             20 => {
                 // ADTS declared-length sweep near the header sizes and at random places
                 let lo = if r.chance(2, 3) { 0 } else { r.below(8100) as u32 };
-                Case::Adts { protection_absent: r.chance(1, 2), delta: *r.pick(&[-1i32, 0, 1, 100]), lo, hi: lo + 24 }
+                Case::Adts { protection_absent: r.chance(1, 2), delta: *r.pick(&[-1i32, 0, 1, 100]), lo, hi: lo + 24, mix: r.chance(1, 3) }
             }
             0..=8 => {
                 let small = std::env::var("VH_SMALL").is_ok();
@@ -102,7 +103,7 @@ pub fn gen_case2(prop: &str, tier: Tier, _seed: u64, idx: u64, r: &mut Rng) -> O
                     let n = r.range(0, 40) as usize;
                     h.cfg.av1_seq = h.cfg.av1_seq.as_ref().map(|s| hostile_bytes(r, s)).or(Some(r.bytes(n)));
                 }
-                h.cfg.lang = if r.chance(1, 4) { Some("日本".into()) } else { None };
+                h.cfg.lang = if r.chance(1, 3) { Some(crate::gen::hist::hostile_lang(r)) } else { None };
                 Case::Frag { h, side: Side { av1: side, vp9: None, op: 0 } }
             }
             _ => {
@@ -170,8 +171,13 @@ pub fn gen_case2(prop: &str, tier: Tier, _seed: u64, idx: u64, r: &mut Rng) -> O
             } else if idx < n5 + n3 + na {
                 let k = idx - n5 - n3;
                 let chunk = (k % 16) as u32;
-                let delta = [-1i32, 0, 1, 100][((k / 16) % 4) as usize];
-                Case::Adts { protection_absent: k / 64 == 0, delta, lo: chunk * 512, hi: (chunk + 1) * 512 }
+                if k < 128 {
+                    let delta = [-1i32, 0, 1, 100][((k / 16) % 4) as usize];
+                    Case::Adts { protection_absent: k / 64 == 0, delta, lo: chunk * 512, hi: (chunk + 1) * 512, mix: false }
+                } else {
+                    // streams whose frames alternate between CRC-protected and unprotected headers
+                    Case::Adts { protection_absent: true, delta: if k < 144 { 0 } else { 100 }, lo: chunk * 512, hi: (chunk + 1) * 512, mix: true }
+                }
             } else {
                 Case::Enum { what: "constructive".into(), lo: idx, hi: idx + 64 }
             }
@@ -215,17 +221,35 @@ pub fn gen_case2(prop: &str, tier: Tier, _seed: u64, idx: u64, r: &mut Rng) -> O
             } else if idx < lang_chunks + day_chunks {
                 let k = idx - lang_chunks;
                 Case::Enum { what: format!("days/{}", stride), lo: k * DAY_CHUNK, hi: ((k + 1) * DAY_CHUNK).min(DAYS_TO_9999 / stride + 1) }
+            } else if r.chance(1, 25) {
+                // very long recordings (64-bit header forms) must carry the metadata as well
+                let sc = *r.pick(&[1u64, 2, 3, 4, 10]);
+                match c16_case(r, sc) {
+                    Case::Hist { mut h, side } => {
+                        h.cfg.meta = true;
+                        h.cfg.lang = Some(crate::gen::hist::langs(r));
+                        if r.chance(1, 2) {
+                            h.cfg.title = Some(crate::gen::hist::titles(r));
+                        }
+                        if r.chance(1, 2) {
+                            h.cfg.ctime = Some(r.below(4_102_444_800));
+                        }
+                        Case::Hist { h, side }
+                    }
+                    other => other,
+                }
             } else {
                 let o = GenOpts { hostile_pct: 0, reorder_pct: 25, audio_pct: 60, meta_pct: 100, encode_pct: 0, consuming: false, max_video: 6, max_audio: 6, ..Default::default() };
                 let mut h = gen_history(r, &o);
                 h.cfg.meta = true;
                 if r.chance(1, 8) {
-                    h.cfg.lang = Some(match r.below(5) {
+                    h.cfg.lang = Some(match r.below(7) {
                         0 => String::new(),
                         1 => "EN".into(),
                         2 => "engl".into(),
                         3 => "é".into(),
-                        _ => "e1g".into(),
+                        4 => "e1g".into(),
+                        _ => crate::gen::hist::hostile_lang(r),
                     });
                 }
                 if r.chance(1, 3) {
@@ -527,7 +551,16 @@ fn c20_case(r: &mut Rng) -> CliCase {
                 1 => FileSpec { exists: true, content: vec![] },
                 2 => FileSpec { exists: true, content: b"  \n\t ".to_vec() },
                 3 => FileSpec { exists: true, content: b"abc".to_vec() },
-                4 => FileSpec { exists: true, content: b"00 11 zz".to_vec() },
+                4 => {
+                    // valid hex text with exactly one character replaced by a non-hex character
+                    let d = r.bytes_range(1, 24);
+                    let mut t = hexify(r, &d);
+                    let pos: Vec<usize> = (0..t.len()).filter(|&i| t[i].is_ascii_hexdigit()).collect();
+                    if let Some(&i) = pos.get(r.usize_below(pos.len().max(1))) {
+                        t[i] = *r.pick(&[b'+', b'-', b'g', b'x', b':', b'G', b'_', b'.', b'+']);
+                    }
+                    FileSpec { exists: true, content: t }
+                }
                 5 => FileSpec { exists: true, content: vec![0xff, 0xfe, 0x00, 0x80, 0x81] },
                 _ => {
                     let d = r.bytes_range(1, 40);
@@ -576,7 +609,7 @@ fn c20_case(r: &mut Rng) -> CliCase {
     }
     // break it in one documented way
     if r.chance(2, 5) {
-        let reason = match r.below(16) {
+        let reason = match r.below(17) {
             0 => {
                 c.video.as_mut().unwrap().exists = false;
                 "missing-video-file"
@@ -633,6 +666,29 @@ fn c20_case(r: &mut Rng) -> CliCase {
                 c.audio.as_mut().unwrap().exists = false;
                 "missing-audio-file"
             }
+            15 => {
+                // a '+' in place of a leading '0' nibble: still not hexadecimal text
+                let t = c.video.as_ref().unwrap().content.clone();
+                let mut t2 = t.clone();
+                let mut digits = 0usize;
+                let mut done = false;
+                for i in 0..t2.len() {
+                    if t2[i].is_ascii_hexdigit() {
+                        if digits % 2 == 0 && t2[i] == b'0' && !done {
+                            t2[i] = b'+';
+                            done = true;
+                        }
+                        digits += 1;
+                    }
+                }
+                if done {
+                    c.video.as_mut().unwrap().content = t2;
+                    "plus-sign-in-hex"
+                } else {
+                    c.video.as_mut().unwrap().content = b"zz11".to_vec();
+                    "invalid-hex"
+                }
+            }
             14 => {
                 let d = video_frame(r, vc, FrameKind::Delta, 8, false);
                 c.video.as_mut().unwrap().content = hexify(r, &d);
@@ -669,8 +725,8 @@ pub fn eval_case2(prop: &str, case: &Case, obs: &mut Obs) -> Vec<Violation> {
             obs.sample(case.brief());
             ps.into_iter().map(|(name, m, l)| mon::c12::panic_violation(&name, &m, &l, &case.brief())).collect()
         }
-        ("C12", Case::Adts { protection_absent, delta, lo, hi }) => {
-            let (h, _frames) = mon::c14::adts_history(*protection_absent, *delta, *lo, *hi);
+        ("C12", Case::Adts { protection_absent, delta, lo, hi, mix }) => {
+            let (h, _frames) = mon::c14::adts_history(*protection_absent, *delta, *lo, *hi, *mix);
             let (ex, _s) = run(&h, &ExecOpts { render_errors: true, ..Default::default() });
             obs.nontrivial(case.hash());
             obs.count("adts_length_sweeps", 1);
@@ -726,10 +782,10 @@ pub fn eval_case2(prop: &str, case: &Case, obs: &mut Obs) -> Vec<Violation> {
             }
             out
         }
-        ("C14", Case::Adts { protection_absent, delta, lo, hi }) => {
+        ("C14", Case::Adts { protection_absent, delta, lo, hi, mix }) => {
             obs.evaluations -= 1;
             obs.count("enumerated:adts", (*hi - *lo) as u64);
-            mon::c14::check_adts(*protection_absent, *delta, *lo, *hi, obs)
+            mon::c14::check_adts(*protection_absent, *delta, *lo, *hi, *mix, obs)
         }
         ("C16", Case::Hist { h, .. }) => {
             let (ex, sink) = run(h, &ExecOpts { casts: true, ..Default::default() });
